@@ -19,10 +19,46 @@ def task(item):
     if kind == 'interp': return C07.job_interp(item[1:])
     if kind == 'slice': return C07.job_slice(item[1:])
     if kind == 'ast': return C01.job_ast(item[1:])
+    if kind == 'pubnum': return job_pubnum(item[1:])
+    if kind == 'lexlong':
+        _, spec, dl = item
+        return LJ.lexer_job(PROG, LJ.make_chars_from(spec), dl, seed=SEED, label=f'{spec[0]} + {len(spec) - 3} x a + 2 symbolic', keyprefix='c05x')
     if kind == 'call':
         from . import funcjob as FJ
         _, name, lists, dl, mode = item
         return FJ.call_job(PROG, name, lists, dl, seed=SEED, mode=mode)
+
+def job_pubnum(item):
+    """compile(text) followed by search on a small array, the text being an index / slice form whose number is a (signed) run of symbolic digits:
+    whatever range of numbers the lexer lets through must be safe in the parser and in the Index / Slice arms of the evaluator"""
+    import z3
+    from mirsym import models as MM, sym as SY
+    pre, neg, ndig, post, doc, dl = item
+    prog = PROG; eng = Engine(prog); eng.deadline = dl; S = Summary(); XP.init_decls(prog)
+    def body(ex):
+        chars = list(pre) + (['-'] if neg else [])
+        for d in ndig:
+            if isinstance(d, str): chars.append(d); continue
+            c = SY.sym_chars(ex, 1)[0]; ex.assume(z3.And(z3.UGE(c.bv, 48), z3.ULE(c.bv, 57))); chars.append(c)
+        chars += list(post); ex.u_chars = chars
+        c = ex.call('compile', [Ptr(Cell(StrV(chars)))])
+        if c.variant == 'Ok': ex.call('Expression::search', [Ptr(Cell(c.fields[0].v)), Ptr(Cell(MM.py_to_variable(doc)), 'rc')])
+        return None
+    def on_path(ex, r):
+        S['paths'] += 1; S['outcomes'][r[0]] += 1
+        if r[0] == 'unsupported': S.inconclusive(f'public number path {pre}N{post}: ' + XP.short_unsupported(r[1])); return
+        if r[0] == 'abort' and 'step budget' not in str(r[1]): return
+        if r[0] in ('panic', 'abort'):
+            sat, m = eng.check(ex.pc)
+            if not sat: return
+            txt = SY.str_conc(StrV(ex.u_chars), m)
+            from .funcjob import tag_py
+            S.cand('c05:search-panic' if r[0] == 'panic' else 'c05:search-hang', f'{txt!r} on {doc}: {r[1]}', {'expr': txt, 'doc': doc}, {'op': 'search_default', 'expr': txt, 'doc': tag_py(doc)}, expected='Ok or Err'); return
+        S['vacuity']['public number path returns'] = True
+    n, rest = eng.explore(body, on_path, max_paths=4000)
+    if rest: S.inconclusive(f'public number path {pre}N{post}: cap/deadline after {n} paths')
+    S.absorb_engine(eng)
+    return S
 
 def confirm(c, nd, nr):
     obs = {'dev': nd.request(c['request']), 'release': nr.request(c['request'])}
@@ -49,6 +85,15 @@ def run(run):
     jobs += [('slice', L, hs, ht, True, dl) for L in range(0, 5 if quick else 8) for hs in (0, 1) for ht in (0, 1)]
     jobs += [('ast', k, (), 1, 2, dl, 20000 if quick else 10**7, True) for k in SA.COMPOUND if k != 'Comparison']
     jobs += [('ast', 'Comparison', (c1, c2), 1, 1, dl, 10**7, True) for c1 in ['Identity', 'Field', 'Index', 'Literal'] for c2 in ['Identity', 'Field', 'Index', 'Literal']]
+    # numbers through the public path: whatever the lexer lets through reaches the evaluator
+    for pre, post in (('[', ']'), ('[', ':]'), ('[:', ']'), ('[::', ']'), ('a[', ']'), ('[0:', ':1]')):
+        for neg in (False, True):
+            for doc in ([], [0], [0, 1, 2]) if pre != 'a[' else ({'a': [0, 1]},):
+                for digs in (list('21474836') + [None, None], [None], [None, '0', '0', '0', '0', '0', '0', '0', '0', '0']): jobs.append(('pubnum', pre, neg, digs, post, doc, dl))
+    # long delimited bodies: q + n x 'a' + two arbitrary code points (+ end of input), every n up to LONG -- buffer thresholds, byte/char index confusion
+    LONG = 80
+    for q in ('"', "'", '`'):
+        for n in range(3, LONG + 1): jobs.append(('lexlong', [q] + ['a'] * n + [None, None], dl))
     # built-in calls: every function on every combination of type representatives (incl. empty arrays/strings/objects) and on its own value universe
     from . import funcs as F, funcjob as FJ
     U = FJ.universes(2)
@@ -65,7 +110,9 @@ def run(run):
             if any(w in c['desc'] for w in ('overflow', 'index out of bounds', 'unwrap', 'unreachable', 'panic')):
                 vals = r.get('values')
                 run.cands.append({'key': 'c05:kani-' + r['harness'], 'what': 'Kani: ' + c['desc'], 'witness': {'values': vals}, 'request': kani_slice_request(r['harness'], vals), 'expected': 'no panic'})
-    run.bounds = {'lexer': 'strings of <= ' + ('2' if quick else '3') + ' arbitrary Unicode scalar values; number tokens of 10-12 symbolic digits around the i32 edge (with/without minus); unterminated and malformed quoted forms with symbolic characters',
+    run.bounds = {'public number path': 'compile + search of [N] [N:] [:N] [::N] a[N] [0:N:1] with N = 21474836dd, d, d000000000 (d symbolic digits) with and without a minus sign, on arrays of 0, 1 and 3 elements',
+                  'long delimited bodies': 'quote + n x "a" + 2 arbitrary code points, closed or unterminated, for every n <= 80 and each of the three delimiters',
+                  'lexer': 'strings of <= ' + ('2' if quick else '3') + ' arbitrary Unicode scalar values; number tokens of 10-12 symbolic digits around the i32 edge (with/without minus); unterminated and malformed quoted forms with symbolic characters',
                   'parser': f'every token sequence of <= {N} tokens (symbolic numbers over the lexer range); peek/advance past the end included',
                   'evaluator': 'Index over the whole lexer range incl. (-idx) as usize; slices over all i32 (kernel) / the lexer range (interpret arm); every compound node kind over leaf children on symbolic documents',
                   'built-ins': 'all 26 functions on every combination of 11 type representatives per position (arity 0..declared+1) and on their value universes (empty arrays/strings/objects included)',
